@@ -145,7 +145,7 @@ Proof.
     destruct (IHp en en' H) as (A & B & C & D & E & G).
     assert (Eb : forall mm t, build (Rev p) en mm t = build (Rev p) en' mm t).
     { intros mm t. change (time_reversed (bunder p en mm fresh) t = time_reversed (bunder p en' mm fresh) t). now rewrite G. }
-    cbn [plays tdur adecls denote]. rewrite B. repeat split; intros; rewrite ?D; auto; apply Eb.
+    cbn [plays tdur adecls denote]. rewrite B. repeat split; intros; rewrite ?D, ?C; auto; apply Eb.
   - (* Single *)
     destruct (IHp en en' H) as (A & B & C & D & E & G). cbn. repeat split; intros; rewrite ?E; auto.
   - (* Pass *)
